@@ -23,6 +23,27 @@ func (m *MonC14) ID() string { return "C14" }
 func isSliceKind(k string) bool { return k == "ObjectSlice" || k == "ClusterObjectSlice" }
 
 func (m *MonC14) OnReq(w *World, r *Req) {
+	if r.Verb == "list" && isSliceKind(r.GVK.Kind) && siteHas(r, "sliceGarbageCollection") {
+		// reach probes: what the garbage collection decision has to respect at this moment
+		arch, act := 0, 0
+		for k, o := range w.Mgmt.Objs {
+			if k.Group != PKOGroup || !isObjectSetKind(k.Kind) || !hasSlices(o) {
+				continue
+			}
+			if store.Str(o, "spec", "lifecycleState") == "Archived" {
+				arch++
+			} else {
+				act++
+			}
+		}
+		w.Stats.Probe("c14-slice-gc-decision")
+		if arch > 0 {
+			w.Stats.Probe("c14-slice-gc-with-archived-sliced-revision")
+		}
+		if act > 1 {
+			w.Stats.Probe("c14-slice-gc-with-several-live-sliced-revisions")
+		}
+	}
 	if r.GVK.Group != PKOGroup || !isSliceKind(r.GVK.Kind) || !r.Succeeded() || r.DryRun {
 		return
 	}
@@ -318,7 +339,37 @@ func planC14(w *World, spec RunSpec) {
 		w.Cfg.Packages = true
 		w.drawFaultMix("err-before", "lost-response", "crash", "compaction", "duplicate", "pull-error")
 		w.Cfg.Ndist = 120 + s.Intn(500, "ndist")
-		w.Scenario = GenPKG(w, 5, "final-delete")
+		if s.Bool("slice-heavy") {
+			// several sliced revisions alive or archived while the template keeps changing
+			w.Scenario = GenPKG(w, 6, "final-delete", "slice-heavy")
+			if s.Bool("paced") {
+				// every edit waits for the rollout of the previous one: older sliced revisions are
+				// archived (and still exist) when the next garbage collection decision is taken
+				w.Cfg.UserOpsAtQuiescence = true
+				w.Cfg.StopOn = "C14"
+				w.StartProcesses()
+				nOps := len(w.Scenario.UserOps)
+				for i := 0; i <= nOps && !w.stopNow; i++ {
+					if i > 0 {
+						w.applyNextUserOp()
+					}
+					w.Disturb(w.Cfg.Ndist / (nOps + 1))
+					if !w.Settle(w.Cfg.CalmBudget) {
+						if !w.stopNow {
+							w.Stats.Inconclusive = true
+						}
+						return
+					}
+					for _, m := range w.Monitors {
+						m.OnQuiescent(w, i)
+					}
+				}
+				w.finish()
+				return
+			}
+		} else {
+			w.Scenario = GenPKG(w, 5, "final-delete")
+		}
 	} else if spec.Index%4 == 3 {
 		s := w.Scn
 		w.setupCommon(6)
